@@ -55,7 +55,8 @@ def apply(wt, mutdir):
 def demo_info(mutdir):
     meta = json.load(open(os.path.join(mutdir, "meta.json")))
     demos = [f for f in glob.glob(os.path.join(mutdir, "*.go"))]
-    loc = meta.get("demo_location", "")
+    loc = (meta.get("demo_location", "") or "").split()
+    loc = loc[0] if loc else ""
     return meta, demos, loc
 
 
